@@ -127,7 +127,7 @@ def model_inline(jobs):
     for g, sub in jobs:
         ps, nts, ts = coq_grammar(g)
         terms.append("enc (option_map (@map _ _ erase) (inline_grammar [%s] (number %s)))" % ("; ".join(str(nts[x]) for x in sorted(sub, key=lambda x: nts[x])), ps))
-    out = vlib.coq_eval_value("c14", HDR, "[%s]" % "; ".join(terms), timeout=900)
+    out = vlib.coq_eval_value("c14", HDR, "[%s]" % "; ".join(terms), timeout=2400)
     rows = re.findall(r"\[([\d;\s]*)\]", out[1:])
     res = []
     for (g, sub), row in zip(jobs, rows):
